@@ -577,9 +577,31 @@ class C17(Check):
             env['PYTHONDONTWRITEBYTECODE'] = '1'
             env['PYTHONIOENCODING'] = 'utf-8'
             env['PYTHONWARNINGS'] = 'ignore'
-            p = subprocess.run([sys.executable, '-m', 'tdda.constraints.console']
-                               + argv, input=(stdin_text or '').encode('utf-8'),
-                               capture_output=True, env=env, timeout=300)
+            keep = set(os.listdir('.'))
+            for k in ('OMP_NUM_THREADS', 'OPENBLAS_NUM_THREADS',
+                      'MKL_NUM_THREADS'):
+                env[k] = '1'
+            p = None
+            for attempt in range(3):
+                try:
+                    p = subprocess.run([sys.executable, '-m',
+                                        'tdda.constraints.console'] + argv,
+                                       input=(stdin_text or '').encode('utf-8'),
+                                       capture_output=True, env=env,
+                                       timeout=120)
+                except subprocess.TimeoutExpired:
+                    p = None
+                if p is not None and p.returncode >= 0:
+                    break
+                # killed by a signal (seen once as SIGABRT on a machine with
+                # load average > 100): an accident of the environment, not
+                # an exit status tdda chose; start again in a clean directory
+                for fn in os.listdir('.'):
+                    if fn not in keep:
+                        os.unlink(fn)
+            if p is None:
+                return {'code': -1, 'exc': None, 'stdout': '', 'stderr': '',
+                        'killed': True}
             err = p.stderr.decode('utf-8', 'replace')
             exc = None
             if 'Traceback (most recent call last)' in err:
@@ -587,7 +609,7 @@ class C17(Check):
                 exc = last.split(':')[0].split('.')[-1]
             return {'code': p.returncode, 'exc': exc,
                     'stdout': p.stdout.decode('utf-8', 'replace'),
-                    'stderr': err[-400:]}
+                    'stderr': err[-400:], 'killed': p.returncode < 0}
         out, err = io.StringIO(), io.StringIO()
         old_stdin, old_argv = sys.stdin, sys.argv
         sys.stdin = io.StringIO(stdin_text or '')
@@ -755,6 +777,10 @@ class C17(Check):
         spec = cli_spec.interpret(argv, os.path.exists)
         r = self.cli(argv, stdin_text, c['route'])
         O['evals'] += 1
+        if r.get('killed'):
+            O['unspec'] += 1
+            O['tag'] = '%s:subprocess-killed-by-signal' % cmd
+            return O
         after = self.listing()
         new_files = [p for p in after if p not in before]
         base = {'argv': argv, 'table': c['t'], 'format': fmt,
